@@ -231,7 +231,7 @@ func (c07) Run(c *Ctx, i int) CaseResult {
 	case 4: // an otherwise correct answer, malformed exactly where a dependent step joins
 		if js := joinSites(ref.Fed, ref.Out.Plans); len(js) > 0 {
 			j := js[r.Intn(len(js))]
-			faults = []FaultSpec{{Service: j.svc, MatchID: j.id, Kind: []string{"join-retype", "join-scalar", "join-null+error"}[(i/5)%3], Path: j.path}}
+			faults = []FaultSpec{{Service: j.svc, MatchID: j.id, Kind: []string{"join-retype", "join-scalar", "join-null+error", "join-null-element+error"}[(i/5)%4], Path: j.path}}
 			joinMode = true
 		}
 	case 0: // one call, one kind (cycled)
@@ -406,7 +406,7 @@ func (c07) Run(c *Ctx, i int) CaseResult {
 			wantMsgs["did not answer in time"] += n
 		case "gqlerrors+empty":
 			wantMsgs["injected-with-empty-data"] += n
-		case "join-null+error":
+		case "join-null+error", "join-null-element+error":
 			// only the calls in which the join position held something were answered that way
 			fc.Injected.mu.Lock()
 			wantMsgs["injected-at-join"] = fc.Injected.AtJoin
